@@ -695,7 +695,21 @@ func (c *Ctx) FSqrt(a *Term) *Term {
 	return c.intern(OFSqrt, a.S, "", 0, 0, a)
 }
 
+// isIntegralFP: the value is known to be an integer (or inf/NaN is impossible): int->fp conversions.
+func isIntegralFP(t *Term) bool {
+	switch t.Op {
+	case OSToFP, OUToFP, OFRound:
+		return true
+	case OFToFP:
+		return t.S.W > t.A[0].S.W && isIntegralFP(t.A[0])
+	}
+	return false
+}
+
 func (c *Ctx) FRound(a *Term, mode int) *Term {
+	if isIntegralFP(a) {
+		return a
+	}
 	if a.IsConst() {
 		switch mode {
 		case 0:
